@@ -532,6 +532,16 @@ pub fn run(tier: &str, c10: bool) -> i32 {
         });
         retry_evals += a6.iter().map(|a| a.evals).sum::<u64>();
     }
+    // stale ring slots at the far edge of the window
+    {
+        let fam = corpus::window_edge_stale_slot_inputs();
+        let lv: Vec<u8> = vec![2, 4, 6, 9];
+        let a8 = par_for(fam.len(), Acc::new, |i, acc| {
+            watchdog::tick(7_000_000 + i as u64, 0);
+            c01_case(&fam[i], &lv, acc, &rep, c10);
+        });
+        retry_evals += a8.iter().map(|a| a.evals).sum::<u64>();
+    }
     // the encoder's own deep distance codes (Fibonacci distance-class histogram), every bit alignment
     if !c10 {
         let fam = corpus::skewed_distance_inputs(th);
